@@ -356,6 +356,11 @@ func (in *inst) stmt(s ast.Stmt) []ast.Stmt {
 		in.block(v)
 		return []ast.Stmt{v}
 	case *ast.LabeledStmt:
+		if sel, ok := v.Stmt.(*ast.SelectStmt); ok {
+			if out, ok := in.selectStmt(sel, v.Label); ok {
+				return out
+			}
+		}
 		inner := in.stmt(v.Stmt)
 		// keep the label on the real statement; points that precede it go before the label
 		pre := inner[:0:0]
@@ -420,6 +425,9 @@ func (in *inst) stmt(s ast.Stmt) []ast.Stmt {
 		in.clauses(v.Body)
 		return []ast.Stmt{v}
 	case *ast.SelectStmt:
+		if out, ok := in.selectStmt(v, nil); ok {
+			return out
+		}
 		hasDefault := false
 		for _, c := range v.Body.List {
 			cc := c.(*ast.CommClause)
@@ -549,3 +557,95 @@ func (in *inst) goStmt(g *ast.GoStmt) []ast.Stmt {
 // rangeOverChan lists `for … range ch` statements over channels (syntactically indistinguishable
 // from ranges over slices without type information); filled from -rangechan if ever needed.
 var rangeOverChan = map[string]bool{}
+
+// selectStmt rewrites a native select into registration calls on a vrt.Sel plus a switch, so that the
+// pick among several ready cases is an enumerated choice under the scheduler (vrt.Select) and plain
+// reflect.Select otherwise. Channel operands are hoisted into temporaries in source order, as the
+// language evaluates them once on entering the select.
+func (in *inst) selectStmt(v *ast.SelectStmt, label *ast.Ident) ([]ast.Stmt, bool) {
+	loc := in.loc(v)
+	in.tmp++
+	sel := fmt.Sprintf("vrtSel%d", in.tmp)
+	hasDefault := false
+	for _, c := range v.Body.List {
+		if c.(*ast.CommClause).Comm == nil {
+			hasDefault = true
+		}
+	}
+	vrtFn := func(name string) ast.Expr {
+		return &ast.SelectorExpr{X: ast.NewIdent("vrt"), Sel: ast.NewIdent(name)}
+	}
+	boolLit := "false"
+	if hasDefault {
+		boolLit = "true"
+	}
+	pre := []ast.Stmt{
+		in.call("Point", strLit(loc)),
+		&ast.AssignStmt{Lhs: []ast.Expr{ast.NewIdent(sel)}, Tok: token.DEFINE, Rhs: []ast.Expr{&ast.CallExpr{Fun: vrtFn("NewSel"), Args: []ast.Expr{ast.NewIdent(boolLit)}}}},
+	}
+	sw := &ast.SwitchStmt{Tag: &ast.CallExpr{Fun: &ast.SelectorExpr{X: ast.NewIdent(sel), Sel: ast.NewIdent("Do")}}, Body: &ast.BlockStmt{}}
+	idx := 0
+	for _, c := range v.Body.List {
+		cc := c.(*ast.CommClause)
+		body := in.list(cc.Body)
+		if cc.Comm == nil {
+			sw.Body.List = append(sw.Body.List, &ast.CaseClause{List: nil, Body: body}) // default:
+			continue
+		}
+		in.tmp++
+		chv := fmt.Sprintf("vrtC%d", in.tmp)
+		var head []ast.Stmt
+		if !hasDefault {
+			head = append(head, in.call("After", strLit(in.loc(cc))))
+		}
+		switch cm := cc.Comm.(type) {
+		case *ast.SendStmt:
+			in.funcLits(cm)
+			pre = append(pre, &ast.AssignStmt{Lhs: []ast.Expr{ast.NewIdent(chv)}, Tok: token.DEFINE, Rhs: []ast.Expr{cm.Chan}})
+			pre = append(pre, &ast.ExprStmt{X: &ast.CallExpr{Fun: vrtFn("SelSend"), Args: []ast.Expr{ast.NewIdent(sel), ast.NewIdent(chv), cm.Value}}})
+		case *ast.ExprStmt: // case <-ch:
+			ue, ok := cm.X.(*ast.UnaryExpr)
+			if !ok || ue.Op != token.ARROW {
+				return nil, false
+			}
+			in.funcLits(cm)
+			pre = append(pre, &ast.AssignStmt{Lhs: []ast.Expr{ast.NewIdent(chv)}, Tok: token.DEFINE, Rhs: []ast.Expr{ue.X}})
+			pre = append(pre, &ast.ExprStmt{X: &ast.CallExpr{Fun: vrtFn("SelRecv"), Args: []ast.Expr{ast.NewIdent(sel), ast.NewIdent(chv)}}})
+		case *ast.AssignStmt: // case x := <-ch / x, ok := <-ch / x = <-ch
+			if len(cm.Rhs) != 1 {
+				return nil, false
+			}
+			ue, ok := cm.Rhs[0].(*ast.UnaryExpr)
+			if !ok || ue.Op != token.ARROW {
+				return nil, false
+			}
+			in.funcLits(cm)
+			pre = append(pre, &ast.AssignStmt{Lhs: []ast.Expr{ast.NewIdent(chv)}, Tok: token.DEFINE, Rhs: []ast.Expr{ue.X}})
+			pre = append(pre, &ast.ExprStmt{X: &ast.CallExpr{Fun: vrtFn("SelRecv"), Args: []ast.Expr{ast.NewIdent(sel), ast.NewIdent(chv)}}})
+			val := &ast.CallExpr{Fun: vrtFn("SelVal"), Args: []ast.Expr{ast.NewIdent(sel), ast.NewIdent(chv)}}
+			rhs := []ast.Expr{val}
+			if len(cm.Lhs) == 2 {
+				rhs = append(rhs, &ast.CallExpr{Fun: &ast.SelectorExpr{X: ast.NewIdent(sel), Sel: ast.NewIdent("SelOk")}})
+			}
+			head = append(head, &ast.AssignStmt{Lhs: cm.Lhs, Tok: cm.Tok, Rhs: rhs})
+			if cm.Tok == token.DEFINE {
+				// silence "declared and not used" exactly like the original would not: the original binds
+				// the variables in the case scope too, so unused ones were already an error there
+			}
+		default:
+			return nil, false
+		}
+		sw.Body.List = append(sw.Body.List, &ast.CaseClause{List: []ast.Expr{&ast.BasicLit{Kind: token.INT, Value: strconv.Itoa(idx)}}, Body: append(head, body...)})
+		idx++
+	}
+	if !hasDefault {
+		// keeps the statement terminating exactly when the original select was
+		sw.Body.List = append(sw.Body.List, &ast.CaseClause{List: nil, Body: []ast.Stmt{&ast.ExprStmt{X: &ast.CallExpr{Fun: ast.NewIdent("panic"), Args: []ast.Expr{strLit("vrt: select chose no case")}}}}})
+	}
+	in.used = true
+	var swStmt ast.Stmt = sw
+	if label != nil {
+		swStmt = &ast.LabeledStmt{Label: label, Stmt: sw}
+	}
+	return []ast.Stmt{&ast.BlockStmt{List: append(pre, swStmt)}}, true
+}
